@@ -308,10 +308,10 @@ def subset_composition(ctx, rule="R3"):
             return "inner"
         if isinstance(e, ast.Name) and e.id in env:
             return base(env[e.id], depth + 1)
-        if isinstance(e, ast.Call) and isinstance(e.func, ast.Attribute) and e.func.attr in ("copy", "astype") :
-            return base(e.func.value, depth + 1)
         if isinstance(e, ast.Call) and call_name(e) in ("np.copy", "np.array", "np.asarray") and e.args:
             return base(e.args[0], depth + 1)
+        if isinstance(e, ast.Call) and isinstance(e.func, ast.Attribute) and e.func.attr in ("copy", "astype") :
+            return base(e.func.value, depth + 1)
         if isinstance(e, ast.Call) and call_name(e) in ("np.zeros_like", "np.zeros") :
             return "zeros"
         return None
